@@ -8,7 +8,7 @@ CONSTANTS
   TicksPerSec = 16
   MaxChain = 16
   BackoffTable <- MCBackoff
-  Requests <- MCRequests1
+  Requests <- MCRequestsC
   IdleAdvances = {0, 16, 96}
   Outcomes <- MCOutcomesB
   Advances <- MCAdvancesB
@@ -17,6 +17,7 @@ INVARIANT WithinLifetime
 INVARIANT BrokenNeverAskedAgain
 INVARIANT Classification
 INVARIANT CacheKeys
+INVARIANT CacheHitSameQuestion
 PROPERTY TruncatedRetry
 PROPERTY RearmCostsTime
 CHECK_DEADLOCK FALSE
